@@ -16,7 +16,7 @@ RULE = ("An environment of typed nodes (floats with length / time / velocity uni
         "also when the same expression is a node value (dimensionless results also in %, and in a custom [dozen]); adding "
         "different dimensions, or requesting a unit of another dimension, must raise. Logical: comparisons "
         "of same-dimension operands (equal, equal after conversion, 1e-8 relative apart, or >= 1e-4 apart; magnitudes "
-        "from 3e-7 to 5e6), ~, !{?ref}, ~!{?ref}, &&, ||, "
+        "from 8e-12 to 5e6), ~, !{?ref}, ~!{?ref}, &&, ||, "
         "parentheses, evaluated directly. Templates: text with {{?ref}}, {{?ref}[slice]}, {{?ref}:format} and "
         "single-brace noise, expected via Python's format(). Non-trivial: >=3 operators with mixed priorities and >=2 "
         "different units, or a custom unit, or a negated comparison / definedness test. Distinct = distinct case JSON.")
@@ -154,7 +154,7 @@ def logical_case(draw):
     def comparison():
         dim = draw(st.sampled_from(["len", "len", "time", "none"]))
         left = draw(atom(dim, custom))
-        mag = draw(st.sampled_from([None, None, 5e6, 1.2e4, 3e-7, 8e-5]))
+        mag = draw(st.sampled_from([None, None, 5e6, 1.2e4, 3e-7, 8e-5, 3e-10, 8e-12]))
         if mag is not None:
             # magnitudes far from one: the comparison tolerance is relative
             left = ["num", mag, draw(st.sampled_from(UNITS[dim]))]
@@ -162,8 +162,7 @@ def logical_case(draw):
         op = draw(st.sampled_from(["==", "!=", "<", ">", "<=", ">="]))
         if rel == "close":
             op = draw(st.sampled_from(["==", "<=", ">="]))     # 1e-8 relative apart: equal for the tolerant operators
-        small = left[0] == "num" and abs(left[1]) < 1e-2        # numpy's absolute 1e-8 would blur 1e-4 relative steps
-        factor = draw(st.sampled_from([0.5, 2.0] if small else [0.5, 2.0, 1.0001, 0.9999]))
+        factor = draw(st.sampled_from([0.5, 2.0, 1.0001, 0.9999]))       # the tolerance is relative at every magnitude
         return ["cmp", left, op, rel, dim, draw(st.sampled_from(UNITS[dim])), factor]
 
     def term(d):
